@@ -368,10 +368,25 @@ def fragment_model(ex, substrate, asn1Spec=None, tagSet=None, length=None, state
     substrate.fields['pos'] = pos + n
     z = ex.fresh('fragment.content', S)
     ex.assume(inr(z))
+    # ghosts: the fragment contents seen so far, in wire order; every fragment was asked for as a plain OCTET STRING
+    # through the raw collector
+    if 'frags' in substrate.fields:
+        substrate.fields['frags'] = SeqV(z3.Concat(substrate.fields['frags'].z, z), 'bytes')
+        ok = isinstance(asn1Spec, Obj) and asn1Spec.name == 'fragmentSpec' and \
+            isinstance(kw.get('substrateFun'), FnV) and kw['substrateFun'].name == 'substrateCollector'
+        substrate.fields['fragsOk'] = And(substrate.fields['fragsOk'], z3.BoolVal(bool(ok)))
     return SeqV(z, 'bytes')
 
 
 fragment_model.is_generator_model = True
+
+
+class PFragStream(PStream):
+    def make(self, ex, name):
+        o = PStream.make(self, ex, name)
+        o.fields['frags'] = SeqV(z3.Empty(S), 'bytes')
+        o.fields['fragsOk'] = z3.BoolVal(True)
+        return o
 
 OCTETS_DEC = [payload(
     'OctetStringPayloadDecoder', 'complete', properties=['C15', 'C09', 'C07', 'C08'],
@@ -379,7 +394,11 @@ OCTETS_DEC = [payload(
                      substrateCollector=PConst(FnV(lambda ex, *a, **k: None, 'substrateCollector'))),
     calls={'decodeFun': fragment_model},
     yield_ensures=[
-        ('primitive-content', 'tagSet[0].tagFormat == 0 ==> (last_yield().value == %s and %s)' % (CONTENT, CONSUMED))],
+        ('primitive-content', 'tagSet[0].tagFormat == 0 ==> (last_yield().value == %s and %s)' % (CONTENT, CONSUMED)),
+        # X.690 8.7.3 / 8.23.6: the value of a constructed string is the concatenation of its fragments' contents in
+        # wire order, each fragment decoded as a plain OCTET STRING
+        ('constructed-is-the-fragments-in-order', 'tagSet[0].tagFormat != 0 ==> (last_yield().value == substrate.frags '
+                                                  'and substrate.fragsOk)')],
     exit_ensures=[
         # C15: a codec that does not support the constructed form (DER) never returns a value for it
         ('constructed-only-if-supported', 'tagSet[0].tagFormat == 0 or self.supportConstructedForm'),
@@ -387,9 +406,12 @@ OCTETS_DEC = [payload(
         ('constructed-covers-length', 'tagSet[0].tagFormat != 0 ==> substrate.pos - old(substrate.pos) >= length')],
     may_raise={'PyAsn1Error': True},
     loops={2: Loop(invariant=['substrate.pos >= original_position', 'isinstance(header, bytes)', 'X.inr(header)',
-                              'not value_yielded()', 'original_position == old(substrate.pos)'],
-                   havoc_fields=['substrate.pos'], variant='length - (substrate.pos - original_position)')},
-    external=['primitive-content', 'constructed-only-if-supported', 'one-result'])]
+                              'not value_yielded()', 'original_position == old(substrate.pos)', 'header == substrate.frags',
+                              'substrate.fragsOk'],
+                   havoc_fields=['substrate.pos', 'substrate.frags', 'substrate.fragsOk'],
+                   variant='length - (substrate.pos - original_position)')},
+    external=['primitive-content', 'constructed-only-if-supported', 'one-result', 'constructed-is-the-fragments-in-order'])]
+OCTETS_DEC[0].params['substrate'] = PFragStream('complete')
 
 
 def from_octet_string(ex, self, value, internalFormat=False, prepend=None, padding=0):
@@ -797,6 +819,13 @@ def nt_required(i):
 NT_INVARIANT = And(NT_N >= 0, NT_HAS_OD == z3.Exists([_qi], And(_qi >= 0, _qi < NT_N, Or(NT_OPT(_qi), NT_DEF(_qi)))))
 
 
+def _nt_note_lookup(self, j, tagSet):
+    # ghosts: how many position-by-tags lookups were made, the last answer and the tags it was made for
+    self.fields['lookups'] = self.fields['lookups'] + 1
+    self.fields['lastLookup'] = j
+    self.fields['lastLookupTags'] = IntVal(tagSet.uid if isinstance(tagSet, Obj) else -2)
+
+
 def _nt_named_types(ex, env):
     def getitem(ex2, self, idx):
         idx = toint(idx)
@@ -823,6 +852,7 @@ def _nt_named_types(ex, env):
             raise _Raise(ExcV('PyAsn1Error'))
         j = ex2.fresh('near.position', I)
         ex2.assume(And(j >= idx, j < NT_N, z3.ForAll([_qi], z3.Implies(And(_qi >= idx, _qi < j), Not(nt_required(_qi))))))
+        _nt_note_lookup(self, j, tagSet)
         return j
 
     def by_type(ex2, self, tagSet):
@@ -831,6 +861,7 @@ def _nt_named_types(ex, env):
             raise _Raise(ExcV('PyAsn1Error'))
         j = ex2.fresh('bytype.position', I)
         ex2.assume(And(j >= 0, j < NT_N))
+        _nt_note_lookup(self, j, tagSet)
         return j
 
     def issubset(ex2, self, other):
@@ -838,6 +869,7 @@ def _nt_named_types(ex, env):
         return z3.ForAll([_qi], z3.Implies(nt_required(_qi), z3.Select(arr, _qi)))
     required = Obj('frozenset', {}, {'issubset': issubset}, name='requiredComponents')
     return Obj('NamedTypes', {'__truthy__': NT_N > 0, 'hasOptionalOrDefault': NT_HAS_OD, 'hasOpenTypes': False,
+                              'lookups': IntVal(0), 'lastLookup': IntVal(-1), 'lastLookupTags': IntVal(-1),
                               'tagMapUnique': Obj('TagMap', {'kind': 'unique', 'position': -1}, name='tagMapUnique'),
                               'requiredComponents': required},
                {'__getitem__': getitem, 'getTagMapNearPosition': near_map, 'getPositionNearType': near_type,
@@ -913,7 +945,8 @@ RECORD_LOOP = Contract(
                               '(not isSet) ==> all_below(seenIndices.arr, idx)',
                               'substrate.pos >= original_position', 'not value_yielded()'],
                    havoc_fields=['substrate.pos', 'seenIndices.arr', 'asn1Object.assigned', 'asn1Object.lastPosition',
-                                 'asn1Object.lastValueUid'],
+                                 'asn1Object.lastValueUid', 'namedTypes0.lookups', 'namedTypes0.lastLookup',
+                                 'namedTypes0.lastLookupTags'],
                    variant='length - (substrate.pos - original_position)',
                    iter_ensures=[
                        # the element just decoded is what gets stored ...
@@ -925,7 +958,15 @@ RECORD_LOOP = Contract(
                        '(not isSet and not hasOD and N > 0) ==> (component.decodedWith.kind == "exact" and '
                        'component.decodedWith.position == iter_old(idx) and asn1Object.lastPosition == iter_old(idx))',
                        # members of a SET are found by their tags among all members
-                       '(isSet and N > 0) ==> component.decodedWith.kind == "unique"'])},
+                       '(isSet and N > 0) ==> component.decodedWith.kind == "unique"',
+                       # C10 "every component has its declared type": an element decoded under one component's type goes to
+                       # that component; one decoded under a map of several candidates goes where a lookup by *its* tags says
+                       '(N > 0 and component.decodedWith.kind == "exact") ==> '
+                       'asn1Object.lastPosition == component.decodedWith.position',
+                       '(N > 0 and component.decodedWith.kind != "exact") ==> '
+                       '(namedTypes0.lookups == iter_old(namedTypes0.lookups) + 1 and '
+                       'asn1Object.lastPosition == namedTypes0.lastLookup and '
+                       'namedTypes0.lastLookupTags == uid_of(component.effectiveTagSet))'])},
     exit_ensures=[
         # C10: whatever is accepted has every mandatory component
         ('every-mandatory-component-assigned', 'required_in(asn1Object.assigned)'),
@@ -1172,3 +1213,41 @@ CHOICE_DEC = Contract(
     may_raise={'PyAsn1Error': True},
     note='decodeFun, asn1Spec.clone and setComponentByType are assumed models; _passAsn1Object only adds an option')
 CONTRACTS = CONTRACTS + [CHOICE_DEC]
+
+
+# ---- constructed strings of indefinite length: fragments up to the end-of-octets marker ---------------------------------------
+def fragment_or_eoo(ex, substrate, asn1Spec=None, tagSet=None, length=None, state=None, **kw):
+    if ex.choose(ex.fresh('fragment.eoo', BoolSort()), 'end-of-octets'):
+        substrate.fields['sawAllowEoo'] = z3.BoolVal(kw.get('allowEoo') is True)
+        return END_OF_OCTETS
+    return fragment_model(ex, substrate, asn1Spec, tagSet, length, state, **kw)
+
+
+fragment_or_eoo.is_generator_model = True
+
+
+class PFragStream2(PFragStream):
+    def make(self, ex, name):
+        o = PFragStream.make(self, ex, name)
+        o.fields['sawAllowEoo'] = z3.BoolVal(False)
+        return o
+
+
+OCTETS_DEC_INDEF = Contract(
+    id='ber.decoder::OctetStringPayloadDecoder.indefLenValueDecoder[complete]', file=F,
+    qual='OctetStringPayloadDecoder.indefLenValueDecoder', is_generator=True, properties=['C09', 'C01', 'C08'],
+    params=dict(payload_params('OctetStringPayloadDecoder', 'complete', supportConstructedForm=PBool(),
+                               fragmentSpec=PConst(Obj('OctetString', {}, name='fragmentSpec')),
+                               substrateCollector=PConst(FnV(lambda ex, *a, **k: None, 'substrateCollector'))),
+                substrate=PFragStream2('complete')),
+    globals={'eoo': {'endOfOctets': END_OF_OCTETS, '__name__': 'eoo'}},
+    calls={'decodeFun': fragment_or_eoo, 'readFromStream': _read_model('complete')},
+    loops={1: Loop(invariant=['isinstance(header, bytes)', 'X.inr(header)', 'not value_yielded()', 'header == substrate.frags',
+                              'substrate.fragsOk', 'substrate.pos >= old(substrate.pos)'],
+                   havoc_fields=['substrate.pos', 'substrate.frags', 'substrate.fragsOk'])},
+    yield_ensures=[('the-fragments-in-order', 'last_yield().value == substrate.frags and substrate.fragsOk'),
+                   ('ended-by-the-marker', 'component is eoo.endOfOctets and substrate.sawAllowEoo')],
+    exit_ensures=[('one-result', 'nyields() == 1')],
+    may_raise={'PyAsn1Error': True},
+    external=['the-fragments-in-order', 'ended-by-the-marker', 'one-result'])
+CONTRACTS = CONTRACTS + [OCTETS_DEC_INDEF]
